@@ -69,7 +69,7 @@ structure FrQ (P : Qp) (i : Nat) (fs ft : Frame) : Prop where
   /-- … and holds a clean value -/
   cl : ∀ n v, ¬ P.D i n → lookupStore ft.store n = some v → clean P v
   /-- a dirty binding is one the purity test does not trust: it exists, holds a value that is neither a
-  reference nor a function, under a name that is not all-caps.  (Since repo fix 066677f the test distrusts more than
+  reference nor a function, under a name that is not all-caps.  (Since repo fix 103fa2c the test distrusts more than
   this: a FUNCTION held by a variable of a non-root frame is a miss too (`Trusted` in MemoFootprint.lean demands depth 0).
   The simulation does not need those bindings dirty - the two runs may still only differ in non-function values -, so the
   determinism statement is unchanged and remains true: it is not the strongest one the repaired code admits.) -/
